@@ -204,6 +204,7 @@ def unmarshalSchemaData (ops : RegexOps) : JTree → Except SErr SchemaData
     let ts ← unmarshalTemplates (← mapFieldOf kTransactions kvs)
     let qs ← unmarshalQueries (← mapFieldOf kQueries kvs)
     pure ⟨chart, ts, qs⟩
+  | .null => pure ⟨[], [], []⟩
   | _ => throw .badType
 
 /-- Values the decoders can produce: a variable default is never JSON `null`
